@@ -134,6 +134,7 @@ macro_rules! impl_lighten_hwb {
             T: crate::num::Real
                 + crate::num::Zero
                 + crate::num::MinMax
+                + crate::num::Clamp
                 + crate::num::Arithmetics
                 + crate::num::PartialCmp
                 + Clone,
@@ -158,8 +159,8 @@ macro_rules! impl_lighten_hwb {
 
                 Self {
                     hue: self.hue,
-                    whiteness: (self.whiteness + delta_whiteness).max(Self::min_whiteness()),
-                    blackness: (self.blackness - delta_blackness).max(Self::min_blackness()),
+                    whiteness: crate::clamp(self.whiteness + delta_whiteness, Self::min_whiteness(), Self::max_whiteness()),
+                    blackness: crate::clamp(self.blackness - delta_blackness, Self::min_blackness(), Self::max_blackness()),
                     $($phantom: PhantomData,)?
                 }
             }
@@ -168,9 +169,8 @@ macro_rules! impl_lighten_hwb {
             fn lighten_fixed(self, amount: T) -> Self {
                 Self {
                     hue: self.hue,
-                    whiteness: (self.whiteness + Self::max_whiteness() * &amount)
-                        .max(Self::min_whiteness()),
-                    blackness: (self.blackness - Self::max_blackness() * amount).max(Self::min_blackness()),
+                    whiteness: crate::clamp(self.whiteness + Self::max_whiteness() * &amount, Self::min_whiteness(), Self::max_whiteness()),
+                    blackness: crate::clamp(self.blackness - Self::max_blackness() * amount, Self::min_blackness(), Self::max_blackness()),
                     $($phantom: PhantomData,)?
                 }
             }
@@ -199,23 +199,23 @@ macro_rules! impl_lighten_hwb {
                     else => self.whiteness.clone(),
                 };
                 self.whiteness += difference_whiteness.max(T::zero()) * &factor;
-                crate::clamp_min_assign(&mut self.whiteness, Self::min_whiteness());
+                crate::clamp_assign(&mut self.whiteness, Self::min_whiteness(), Self::max_whiteness());
 
                 let difference_blackness = lazy_select! {
                     if factor.gt_eq(&T::zero()) => self.blackness.clone(),
                     else => Self::max_blackness() - &self.blackness,
                 };
                 self.blackness -= difference_blackness.max(T::zero()) * factor;
-                crate::clamp_min_assign(&mut self.blackness, Self::min_blackness());
+                crate::clamp_assign(&mut self.blackness, Self::min_blackness(), Self::max_blackness());
             }
 
             #[inline]
             fn lighten_fixed_assign(&mut self, amount: T) {
                 self.whiteness += Self::max_whiteness() * &amount;
-                crate::clamp_min_assign(&mut self.whiteness, Self::min_whiteness());
+                crate::clamp_assign(&mut self.whiteness, Self::min_whiteness(), Self::max_whiteness());
 
                 self.blackness -= Self::max_blackness() * amount;
-                crate::clamp_min_assign(&mut self.blackness, Self::min_blackness());
+                crate::clamp_assign(&mut self.blackness, Self::min_blackness(), Self::max_blackness());
             }
         }
     };
